@@ -322,7 +322,7 @@ def runCase (rc : RunCfg) (c : Case) : String × String :=
   | "iter" =>
     let s := modelSel rc c c.expr c.ctx
     if s == "cerr" then ("cerr", "-") else
-    let after := String.ofList (List.replicate c.extra.toNat! '0')
+    let after := String.ofList (List.replicate ((c.extra.splitOn ";").head!.toNat!) '0')   -- "N" or "N;flat"
     let body := if s.startsWith "seq:" then (s.drop 4).toString else s
     ("iter:" ++ body ++ "/" ++ after ++ "/" ++ modelEval rc c c.expr c.ctx, specEval c c.expr c.ctx)
   | "nav" => ("nav:" ++ navDump c.doc, "-")
